@@ -53,4 +53,12 @@ static int hx_split (char *s, char **w, int max) {
     }
     return n;
 }
+/* tools/coverage.sh builds with -DHX_COV --coverage: children that leave through _exit () must flush their counters */
+#ifdef HX_COV
+extern void __gcov_dump (void);
+#define HX_COV_DUMP() __gcov_dump ()
+#else
+#define HX_COV_DUMP() ((void) 0)
+#endif
+
 #endif
